@@ -193,13 +193,20 @@ func TestCrashAtEveryWrite(t *testing.T) {
 // fork tip like a node that never crashed.
 func TestCrashDuringForkSwitch(t *testing.T) {
 	rapid.Check(t, func(t *rapid.T) {
-		h := sim.RunHistory(t, sim.Options{MinActors: 3, MaxActors: 7, Replicas: 1, MaxReplicas: 3, Steps: rapid.IntRange(3, 9).Draw(t, "prefix"), MaxTxPerStep: 5,
+		h := sim.RunHistory(t, sim.Options{MinActors: 3, MaxActors: 7, Replicas: 1, MaxReplicas: 3, Steps: rapid.SampledFrom([]int{0, 3, 4, 5, 0, 6, 7, 8, 9, 1, 2}).Draw(t, "prefix"), MaxTxPerStep: 5,
 			Params: func(p *sim.Params) { p.CeremonyIn = 100000 }})
 		w := h.W
 		base := w.Replicas[0]
 		own := w.CopyOf(t, base, "own", w.God)
 		forkSide := w.CopyOf(t, base, "fork", w.God)
 		ownLen := rapid.IntRange(0, 2).Draw(t, "ownLen")
+		if base.Head().Height() == base.Chain.GenesisInfo().Genesis.Height() {
+			// young chain forking right at its genesis block: the rollback target is the genesis state itself
+			evid.Count("fork.common_ancestor_is_genesis")
+			if ownLen > 0 {
+				evid.Count("fork.rollback_to_genesis")
+			}
+		}
 		for i := 0; i < ownLen; i++ {
 			w.Extend(t, own, nil, nil)
 		}
